@@ -34,6 +34,41 @@ def has_forced(line):
     return "fs" in ops or "fr" in ops
 
 
+def run_pipes(jobs, driver, timeout=1500, keep=40):
+    """like vlib.run_pipelines, but keeps kind=spec and kind=model lines separately (a flood of one kind must not
+    crowd out the other) and never waits longer than `timeout` per job"""
+    import concurrent.futures as cf
+    res = {"cases": 0, "ops": 0, "mismatches_model": 0, "mismatches_spec": 0, "distinct_nontrivial": 0,
+           "spec": [], "model": [], "failed_jobs": []}
+    perclass = {}
+
+    def one(job):
+        label, argv = job
+        rc, out = vlib.sh("set -o pipefail; " + " ".join(argv) + " 2>/dev/null | " + driver, timeout=timeout)
+        return label, argv, rc, out
+
+    with cf.ThreadPoolExecutor(max_workers=vlib.NPROC) as ex:
+        for label, argv, rc, out in ex.map(one, jobs):
+            got = False
+            for line in out.split("\n"):
+                if line.startswith("MISMATCH"):
+                    if "kind=spec" in line:
+                        cls = line.rsplit("class=", 1)[1] if "class=" in line else "?"
+                        perclass[cls] = perclass.get(cls, 0) + 1
+                        if perclass[cls] <= keep:
+                            res["spec"].append((label, " ".join(argv), line))
+                    elif len(res["model"]) < keep:
+                        res["model"].append((label, " ".join(argv), line))
+                elif line.startswith("SUMMARY"):
+                    got = True
+                    for kv in line.split()[1:]:
+                        k, v = kv.split("=")
+                        res[k] = res.get(k, 0) + int(v)
+            if rc != 0 or not got:
+                res["failed_jobs"].append((label, " ".join(argv), rc, out[-800:]))
+    return res
+
+
 def run_one(exe, driver, prog, sched):
     rc, out = vlib.sh("%s one '%s' %s 2>/dev/null" % (exe, prog, sched), timeout=120)
     rc2, res = vlib.sh(driver, inp=out, timeout=120)
@@ -70,6 +105,7 @@ def run(ctx):
                 ctx.violation("trace correspondence broken on a regression schedule: " + m,
                               {"execution": trace, "how_to_rerun": "%s one '%s' %s | %s" % (exe, prog, sched, driver)}, no_input=True)
     ctx.cov["regression_schedules"] = reg
+    ctx.cov["samples"] = [{"job": "regression %s %s" % (REGRESSIONS[0][0], REGRESSIONS[0][1]), "execution": run_one(exe, driver, REGRESSIONS[0][0], REGRESSIONS[0][1])[0][:30]}]
     prog, sched = KNOWN_WITNESS
     trace, mm, summ, rc, rc2 = run_one(exe, driver, prog, sched)
     spec = [m for m in mm if "kind=spec" in m]
@@ -78,6 +114,9 @@ def run(ctx):
     if model:
         ctx.violation("witness of c13_unlink_once_refuted: implementation trace differs from the model: " + model[0],
                       {"execution": trace, "how_to_rerun": "%s one '%s' %s | %s" % (exe, prog, sched, driver)}, no_input=True)
+    elif spec and "class=second-owner-after-mark" not in spec[0]:
+        ctx.violation("witness schedule of c13_unlink_once_refuted violates the property in a way the model does not explain: " + spec[0],
+                      {"execution": trace, "how_to_rerun": "%s one '%s' %s | %s" % (exe, prog, sched, driver)})
     elif spec:
         ctx.violation("forced removal that finds the byte already MarkedForDestruction becomes a second storage owner; its drop removes a "
                       "re-created connection while the new sender is attached (witness of c13_unlink_once_refuted replayed on the implementation): " + spec[0],
@@ -111,7 +150,11 @@ def run(ctx):
         jobs.append(("rnd:%d" % i, [exe, "rnd", str(nr), str(i), str(nsh), str(ctx.seed)]))
     for i in range(nsh):
         jobs.append(("seq:%d" % i, [exe, "seq", "5", str(i), str(nsh)]))
-    r = vlib.run_pipelines(jobs, driver, timeout=2400)
+    r = run_pipes(jobs, driver, timeout=2400)
+    # posix_shared_memory storage: sequential histories, oracle on the observations only
+    plen = 5 if ctx.thorough() else 4
+    pjobs = [("posixseq:%d" % i, [exe, "posixseq", str(plen), str(i), "8"]) for i in range(8)]
+    rp = run_pipes(pjobs, driver + " oracle", timeout=1200)
 
     # site coverage + ordering table from one small direct run
     rc, res = vlib.sh("set -o pipefail; (%s rnd 300 0 1 %d; %s seq 3 0 1) 2>/dev/null | %s" % (exe, ctx.seed, exe, driver), timeout=900)
@@ -127,62 +170,83 @@ def run(ctx):
                       {"sites": sites}, no_input=True)
 
     ctx.cov.update({
-        "evaluations": r["cases"], "distinct_nontrivial": r["distinct_nontrivial"],
+        "evaluations": r["cases"] + rp["cases"], "distinct_nontrivial": r["distinct_nontrivial"],
         "traces_validated_against_impl": r["cases"], "accesses_compared": r["ops"],
+        "posix_shared_memory_histories": rp["cases"],
         "rule": "every schedule with <= %d preemptions (capped at %d executions per program) of 2- and 3-thread programs of create_sender / create_receiver "
-                "(matching and all mismatching parameter kinds) / drop / leak / forced remove_sender|remove_receiver / is_connected on one connection name over "
-                "process_local storage; seeded random programs and schedules; ALL sequential histories up to length 5 of the same operations; each execution of the "
-                "REAL code under the baton scheduler is compared with the Coq step model on the same schedule: every access to the state byte and to the ownership "
-                "flag (site, location = incarnation / handle, kind, both orderings, value read / written, CAS outcome), every storage-level operation (hit / miss / "
-                "create / remove, from the map accesses inside the critical section), every return value incl. does_exist after each operation, final does_exist; "
-                "oracle (kind=spec) on the implementation's own observations: second attach refused, no two attached ports of a role, does_exist while a port is "
-                "attached, nothing left when all ports are gone" % (bound, cap),
+                "(matching and all mismatching parameter kinds) / drop / leak / forced remove_sender|remove_receiver (of attached, dead and NOT attached roles, one and two "
+                "cleaners) / is_connected on one connection name over process_local storage; seeded random programs and schedules; ALL sequential histories up to length 5 of "
+                "the same operations; each execution of the REAL code under the baton scheduler is compared with the Coq step model on the same schedule: every access to the "
+                "state byte and to the ownership flag (site, location = incarnation / handle, kind, both orderings, value read / written, CAS outcome), every storage-level "
+                "operation (hit / miss / create / remove), every return value incl. does_exist after each operation, final does_exist; plus all sequential histories up to "
+                "length %d on posix_shared_memory storage (observations only). Oracle (kind=spec) on the implementation's own observations, independent of the model: second "
+                "attach refused, no two attached ports of a role, does_exist while a port is attached, is_connected while both sides are attached, a removed connection "
+                "reappears only through a create, nothing left when all ports are gone" % (bound, cap, plen),
         "exhaustive": False,
     })
-    smp = vlib.extract_case(jobs[0][1], driver, 3)
-    ctx.cov["samples"] = [{"job": jobs[0][0], "execution": smp[:40]}]
-    for lbl, cmd, rc, tail in r["failed_jobs"]:
+    for lbl, cmd, rc, tail in r["failed_jobs"] + rp["failed_jobs"]:
         ctx.violation("correspondence job failed (harness or driver crashed): " + lbl, {"cmd": cmd, "rc": rc, "tail": tail}, no_input=True)
-    spec_mm = [m for m in r["mismatch_lines"] if "kind=spec" in m[2]]
-    model_mm = [m for m in r["mismatch_lines"] if "kind=model" in m[2]]
-    forced = [m for m in spec_mm if has_forced(m[2])]
-    plain = [m for m in spec_mm if not has_forced(m[2])]
-    ctx.cov["spec_mismatches_with_forced_removal"] = r["mismatches_spec"] if not plain else len(forced)
-    for lbl, cmd, line in plain[:3]:
-        case_no = int(line.split("case=")[1].split()[0])
-        hist = vlib.extract_case(cmd.split(), driver, case_no)
-        ctx.violation("connection lifecycle violated by the implementation WITHOUT forced removal: " + line,
-                      {"execution": hist, "harness_cmd": cmd, "how_to_rerun": "c13 one <program> <schedule from the S line> | driver"})
-    for lbl, cmd, line in forced[:1]:
-        case_no = int(line.split("case=")[1].split()[0])
-        hist = vlib.extract_case(cmd.split(), driver, case_no)
+
+    def rerun(line):
+        """the execution of a MISMATCH line, re-run from the program and the schedule in its header"""
+        toks = line.split("header=[")[1].split("]")[0].split() if "header=[" in line else []
+        if len(toks) < 2:
+            return [], ""
+        sched = ""
+        for t in toks:
+            if t.startswith("s="):
+                sched = t[2:]
+        cmdline = "%s one '%s' '%s'" % (exe, toks[1], sched)
+        rc, out = vlib.sh(cmdline + " 2>/dev/null", timeout=120)
+        return out.split("\n")[:80], cmdline + " | " + driver
+
+    spec_all = r["spec"] + rp["spec"]
+    known = [m for m in spec_all if "class=second-owner-after-mark" in m[2]]
+    misuse = [m for m in spec_all if "class=forced-removal-of-live-port" in m[2]]
+    unexplained = [m for m in spec_all if m not in known and m not in misuse]
+    ctx.cov["spec_mismatches"] = {"total": r["mismatches_spec"] + rp["mismatches_spec"], "second_owner_after_mark(lines kept)": len(known),
+                                  "forced_removal_of_a_live_port_excluded(lines kept)": len(misuse), "unexplained(lines kept)": len(unexplained)}
+    if misuse:
+        ctx.notes.append("%d kept executions violate the oracle only because a remove_sender/remove_receiver cleared the bit of a LIVE port that attached while the "
+                         "removal was in flight (model agrees on the whole trace, ghost `stolen` non-empty, saw_marked false): outside the contract of the unsafe fn, not reported" % len(misuse))
+    unexplained = ([m for m in unexplained if not m[0].startswith("posixseq")][:2] + [m for m in unexplained if m[0].startswith("posixseq")][:1]) or unexplained
+    for lbl, cmd, line in unexplained[:3]:
+        if lbl.startswith("posixseq"):
+            ctx.violation("connection lifecycle violated by the implementation on posix_shared_memory storage (sequential history): " + line,
+                          {"history": line.split("header=[")[1].split("]")[0] if "header=[" in line else line, "harness_cmd": cmd + " | " + driver + " oracle",
+                           "how_to_read": "header = threads, program, timeline b:<thread>:<op> / e:<thread>:<op>:<2*result+does_exist> / l = port died"})
+        else:
+            hist, how = rerun(line)
+            ctx.violation("connection lifecycle violated by the implementation (not explained by the model: the trace differs from it, or no forced removal found a marked byte): " + line,
+                          {"execution": hist, "harness_cmd": cmd, "how_to_rerun": how})
+    for lbl, cmd, line in known[:1]:
+        hist, how = rerun(line)
         ctx.violation("forced removal that finds the byte already MarkedForDestruction becomes a second storage owner (found by the schedule exploration): " + line,
-                      {"execution": hist, "harness_cmd": cmd, "how_to_rerun": "c13 one <program> <schedule from the S line> | driver"}, key=KEY_FORCED)
-    if model_mm and not spec_mm and not any(not v["no_input"] for v in ctx.violations):
-        # SEARCH phase: the tie broke and no explored execution violated the property: explore the diverging
-        # program shapes deeper (one more preemption, no per-program cap worth mentioning) with the oracle only
+                      {"execution": hist, "harness_cmd": cmd, "how_to_rerun": how}, key=KEY_FORCED)
+    model_mm = r["model"]
+    if model_mm and not unexplained and not any(not v["no_input"] for v in ctx.violations):
+        # SEARCH phase (bounded: <= 4 programs x 1500 executions, 100 s): the tie broke and no explored execution
+        # violated the property: explore the diverging program shapes one preemption deeper with the oracle
         progs = []
         for lbl, cmd, line in model_mm:
             toks = line.split("header=[")[1].split("]")[0].split() if "header=[" in line else []
             if len(toks) > 1 and toks[1] not in progs:
                 progs.append(toks[1])
-        sjobs = [("search:%s" % p, [exe, "exhp", str(bound + 1), "30000", "'%s'" % p]) for p in progs[:12]]
-        sr = vlib.run_pipelines(sjobs, driver, timeout=1500)
-        ctx.cov["search_phase"] = {"programs": progs[:12], "executions": sr["cases"], "spec_mismatches": sr["mismatches_spec"]}
-        found = [m for m in sr["mismatch_lines"] if "kind=spec" in m[2]]
+        sjobs = [("search:%s" % p, [exe, "exhp", str(bound + 1), "1500", "'%s'" % p]) for p in progs[:4]]
+        sr = run_pipes(sjobs, driver, timeout=100)
+        ctx.cov["search_phase"] = {"programs": progs[:4], "executions": sr["cases"], "spec_mismatches": sr["mismatches_spec"]}
+        found = [m for m in sr["spec"] if "class=second-owner-after-mark" not in m[2] and "class=forced-removal-of-live-port" not in m[2]]
         for lbl, cmd, line in found[:2]:
-            case_no = int(line.split("case=")[1].split()[0])
-            hist = vlib.extract_case(cmd.split(), driver, case_no)
+            hist, how = rerun(line)
             ctx.violation("connection lifecycle violated by the implementation (found by the search phase after the tie broke): " + line,
-                          {"execution": hist, "harness_cmd": cmd, "how_to_rerun": "c13 one <program> <schedule from the S line> | driver"},
-                          key=KEY_FORCED if has_forced(line) else None)
+                          {"execution": hist, "harness_cmd": cmd, "how_to_rerun": how})
     if model_mm:
         lbl, cmd, line = model_mm[0]
-        case_no = int(line.split("case=")[1].split()[0])
-        hist = vlib.extract_case(cmd.split(), driver, case_no)
+        hist, how = rerun(line)
         ctx.violation("trace correspondence model<->implementation broken (first diverging access below): " + line,
                       {"obligation": "G1 trace equality between model/ConnState.v (theorems c13_*) and zero_copy_connection/common.rs + dynamic_storage/process_local.rs",
-                       "first_divergence": line, "execution": hist, "harness_cmd": cmd, "other_divergences": [m[2] for m in model_mm[1:6]]}, no_input=True)
+                       "first_divergence": line, "execution": hist, "harness_cmd": cmd, "how_to_rerun": how, "other_divergences": [m[2] for m in model_mm[1:6]]},
+                      no_input=not any(not v["no_input"] for v in ctx.violations))
     if not proof_ok and not ctx.violations:
         ctx.violation("proof obligation no longer checks: %s" % ctx.broken, {"broken": ctx.broken}, no_input=True)
     ctx.assumptions = [
